@@ -382,7 +382,11 @@ class PrivacyEngine:
                     "Module parameters are different than optimizer Parameters"
                 )
 
-        distributed = isinstance(module, (DPDDP, DDP))
+        # a module that arrives already wrapped keeps its (DP)DDP wrapper inside
+        distributed = isinstance(
+            module._module if isinstance(module, AbstractGradSampleModule) else module,
+            (DPDDP, DDP),
+        )
 
         module = self._prepare_model(
             module,
